@@ -349,9 +349,18 @@ Fixpoint calls_ok (inv : invocation) : bool :=
       end
   end.
 
-(** signatures: pairwise distinct flag spellings per task, distinct task names *)
+(** a required positional (no default) must be able to receive a value.  The one
+    way to violate this is a COUNTER declared without a numeric default
+    ([@task(incrementable=['n']) def t(c, n)]): it is "missing" for ever -- its
+    flag raises TypeError (finding F-C07e, registered under C07), a word cannot
+    be assigned to it -- so no invocation of such a task is an intended one. *)
+Definition positional_fillable (a : argspec) : bool :=
+  negb (a_positional a && aval_is_none (a_default a) && negb (takes_value a)).
+
+(** signatures: pairwise distinct flag spellings per task, distinct task names,
+    required positionals fillable *)
 Definition sigs_ok : bool :=
-  forallb (fun c => wf_args (cx_args c)) cs
+  forallb (fun c => wf_args (cx_args c) && forallb positional_fillable (cx_args c)) cs
   && nodupb (flat_map (fun c => match cx_name c with Some n => n :: cx_aliases c | None => [] end) cs)
   && forallb (fun c => match cx_name c with Some _ => true | None => false end) cs.
 
